@@ -90,8 +90,14 @@ def build(sym, shape, opts, focus):
         ti.stage2.mainimage = text(sym, "mainimage", 3, focus, minlen=1)
         if opts["stage2"] > 1:
             ti.stage2.instimage = text(sym, "instimage", 3, focus, minlen=1)
-    if opts["media"]:
-        ti.media.discnum = sym.int("discnum", 1, 99)
+    if opts["media"] is True:
+        # disc numbering from 0 (a 0/0 numbering is what the library treats as "no [media] section": documentation-silent, on neither side)
+        ti.media.discnum = sym.int("discnum", 0, 99)
+        ti.media.totaldiscs = sym.int("totaldiscs", 0, 99)
+        sym.assume(ti.media.discnum + ti.media.totaldiscs > 0)
+    elif opts["media"] == "first":
+        ti.media.discnum = sym.int("discnum", 1, 99)            # half a numbering: written as given or refused, never dropped
+    elif opts["media"] == "second":
         ti.media.totaldiscs = sym.int("totaldiscs", 1, 99)
     for i, path in enumerate(opts["checksums"]):
         if opts.get("long_digest") and i == 0:
@@ -212,7 +218,7 @@ def _opts(shape, k):
         if len(plats) == 2:
             images[plats[1]] = []          # a declared platform whose image table is (still) empty
 
-    return {"layered": k % 3 == 1, "arch": arch, "platforms": plats, "paths": paths, "images": images, "stage2": k % 3, "media": k % 2 == 1,
+    return {"layered": k % 3 == 1, "arch": arch, "platforms": plats, "paths": paths, "images": images, "stage2": k % 3, "media": True if k % 2 == 1 else {2: "first", 10: "second"}.get(k, False),
             "checksums": [["images/boot.iso", "./a//b/../c"][: 1 + k % 2], []][k % 4 // 2]}
 
 
